@@ -250,18 +250,20 @@ def s2_template_data(ctx):
         ctx.undecided('C12.S2', g, 'no probe loop in write_channel_data')
         return
     lp = loops[0]
-    ok_iter = isinstance(lp.iter, ast.Call) and dotted(lp.iter.func) == 'enumerate' and isinstance(lp.target, ast.Tuple)
-    if not ok_iter:
-        ctx.undecided('C12.S2', g, 'probe loop is not enumerate(...)', lp)
+    pl = probe_loop(lp)
+    if pl is None:
+        ctx.undecided('C12.S2', g, 'probe loop is neither `for k, arr in enumerate(list)` nor `for arr in list`', lp)
         return
-    ind, arr = (unparse(x) for x in lp.target.elts)
-    srcname = unparse(lp.iter.args[0])
+    ind, arr, src_e = pl
+    srcname = unparse(src_e)
     src = [a for a in g.nodes(ast.Assign) if unparse(a.targets[0]) == srcname and isinstance(a.value, ast.Call) and dotted(a.value.func) == '_load_multiple_files']
     ctx.check(bool(src) and const_value(src[0].value.args[0]) == 'channel_map.npy' and unparse(src[0].value.args[1]) == 'self.subdirs', 'C12.S3', g, lp.iter,
               'probes are enumerated over their channel maps in input order', 'the probe loop does not enumerate the channel maps of the inputs in order')
     accs = [unparse(a.targets[0]) for a in g.body() if isinstance(a, ast.Assign) and const_value(a.value) == 0 and isinstance(a.targets[0], ast.Name)]
     ARR, k = T('ARR'), T('k')
-    env = {g.params[0]: me, arr: ARR, ind: k}
+    env = {g.params[0]: me, arr: ARR}
+    if ind is not None:
+        env[ind] = k
     binds = {ARR: Lin.atom(('arr',)), k: Lin.atom(('k',))}
     for a in accs:
         env[a] = T('acc', a)
@@ -298,6 +300,28 @@ def s2_template_data(ctx):
                           'the channel counter after a probe is %s, expected previous + number of channels of the probe' % show(new)[:70])
         # S3 probe labels
         lab = [e for e in st.trace if e[0] == 'append' and e[2] not in ('channel_index_offsets', 'channel_offsets')]
+        if not lab:
+            # labels built outside the loop (one comprehension over the maps, through a helper or not): `np.full_like(a, k) for k, a in enumerate(maps)`
+            made = None
+            for f_ in repo.transparent_closure(g):
+                for lc in f_.nodes(ast.ListComp, ast.GeneratorExp):
+                    g0 = lc.generators[0]
+                    pk = Pat(f_)
+                    if len(lc.generators) == 1 and not g0.ifs and pk.m('enumerate(E_maps)', g0.iter) and isinstance(g0.target, ast.Tuple) and len(g0.target.elts) == 2 and \
+                            all(isinstance(x, ast.Name) for x in g0.target.elts):
+                        kk, aa = g0.target.elts[0].id, g0.target.elts[1].id
+                        if Pat(f_).any(['np.full_like(%s, %s)' % (aa, kk), 'np.full(%s.shape, %s)' % (aa, kk), '%s * 0 + %s' % (aa, kk), 'np.zeros_like(%s) + %s' % (aa, kk),
+                                        'np.full(%s.shape, %s, dtype=ANY)' % (aa, kk), 'np.full_like(%s, %s, dtype=ANY)' % (aa, kk)], lc.elt):
+                            made = made or ('ok', lc)
+                        elif {n.id for n in ast.walk(lc.elt) if isinstance(n, ast.Name)} <= {kk, aa, 'np'}:
+                            made = ('bad', lc)
+            if made is not None and made[0] == 'ok':
+                ctx.holds('C12.S3', g, 'channel_probe block k is the constant k with the shape of the channel map of probe k', made[1])
+            elif made is not None:
+                ctx.violated('C12.S3', g, made[1], 'the label block of probe k is `%s`, not the constant k on its channels' % unparse(made[1].elt))
+            else:
+                ctx.undecided('C12.S3', g, 'construction of the per-probe label blocks not recognised')
+            continue
         okl = False
         why = 'no per-probe block of probe labels'
         for e in lab:
@@ -325,39 +349,180 @@ def s2_template_data(ctx):
                   '%s is not the concatenation of the per-probe blocks' % nm)
 
 
+def probe_loop(lp):
+    """(index name or None, array name, iterated list expression) of a per-probe loop `for k, arr in enumerate(L)` / `for arr in L`; None otherwise."""
+    if isinstance(lp.iter, ast.Call) and dotted(lp.iter.func) == 'enumerate' and len(lp.iter.args) == 1 and isinstance(lp.target, ast.Tuple) and len(lp.target.elts) == 2 and \
+            all(isinstance(x, ast.Name) for x in lp.target.elts):
+        return lp.target.elts[0].id, lp.target.elts[1].id, lp.iter.args[0]
+    if isinstance(lp.target, ast.Name) and isinstance(lp.iter, ast.Name):
+        return None, lp.target.id, lp.iter
+    return None
+
+
+def _positions_loop(ctx, g):
+    """The probe loop of write_channel_positions, evaluated symbolically: with X the x column of a probe as loaded, a the running offset, the body is walked
+    statement by statement (view aliases `x = array[:, 0]` are followed) keeping the shift applied to the x column and every scalar as a linear form over
+    {a, max X, min X}. Decided: only the x column changes, by +a; the next offset a' satisfies a' - (a + max X) = alpha * (max X - min X) + delta with
+    alpha, delta >= 0 and not both 0 (the next probe starts beyond the largest shifted x of this one); a starts at 0."""
+    loops = [l for l in g.nodes(ast.For) if isinstance(l.target, ast.Name)]
+    if not loops:
+        return ctx.undecided('C12.S3', g, 'no probe loop in write_channel_positions')
+    lp = loops[0]
+    arr = lp.target.id
+    A, MX, MN = Lin.atom(('a',)), Lin.atom(('maxX',)), Lin.atom(('minX',))
+    P0 = Pat(g)
+    views = {}          # local name -> column index of the loop array it is a view of
+
+    def column(e):
+        """Column of `arr` a (sub)expression denotes: int, 'all' for the whole array / several columns, None when it is not the array."""
+        if isinstance(e, ast.Name) and e.id == arr:
+            return 'all'
+        if isinstance(e, ast.Name) and e.id in views:
+            return views[e.id]
+        if isinstance(e, ast.Subscript) and isinstance(e.value, ast.Name) and e.value.id == arr:
+            sl = e.slice
+            if isinstance(sl, ast.Tuple) and len(sl.elts) == 2 and isinstance(sl.elts[0], ast.Slice) and sl.elts[0].lower is None and sl.elts[0].upper is None and sl.elts[0].step is None:
+                c = const_value(sl.elts[1])
+                return c if isinstance(c, int) else 'all'
+            if isinstance(sl, ast.Constant) and sl.value is Ellipsis:
+                return 'all'
+            return 'all'
+        return None
+
+    accs = {a.targets[0].id: a for a in g.body() if isinstance(a, ast.Assign) and isinstance(a.targets[0], ast.Name) and isinstance(const_value(a.value), (int, float))
+            and not isinstance(const_value(a.value), bool)}
+    env = {}            # scalar local -> Lin
+    shift = {0: Lin.const(0)}
+    state = {'other': None, 'unknown': None, 'acc': None}
+
+    def ev(e):
+        c = const_value(e)
+        if isinstance(c, (int, float)) and not isinstance(c, bool):
+            from fractions import Fraction
+            return Lin.const(Fraction(c).limit_denominator(10 ** 6))
+        if isinstance(e, ast.Name):
+            if e.id in env:
+                return env[e.id]
+            if e.id in accs:
+                state['acc'] = state['acc'] or e.id
+                return A if e.id == state['acc'] else None
+            return None
+        if isinstance(e, ast.UnaryOp) and isinstance(e.op, (ast.USub, ast.UAdd)):
+            v = ev(e.operand)
+            return None if v is None else (-v if isinstance(e.op, ast.USub) else v)
+        if isinstance(e, ast.BinOp) and isinstance(e.op, (ast.Add, ast.Sub)):
+            l, r = ev(e.left), ev(e.right)
+            return None if l is None or r is None else (l + r if isinstance(e.op, ast.Add) else l - r)
+        if isinstance(e, ast.BinOp) and isinstance(e.op, ast.Mult):
+            l, r = ev(e.left), ev(e.right)
+            if l is None or r is None:
+                return None
+            if l.is_const():
+                return r.scale(l.cval())
+            if r.is_const():
+                return l.scale(r.cval())
+            return None
+        if isinstance(e, ast.Call):
+            how, operand = None, None
+            if isinstance(e.func, ast.Attribute) and e.func.attr in ('max', 'min') and not e.args and not e.keywords and dotted(e.func) not in ('np.max', 'np.min'):
+                how, operand = e.func.attr, e.func.value
+            elif dotted(e.func) in ('np.max', 'np.min', 'np.amax', 'np.amin', 'max', 'min', 'np.nanmax', 'np.nanmin') and len(e.args) == 1 and not e.keywords:
+                how, operand = ('max' if dotted(e.func).endswith('max') else 'min'), e.args[0]
+            if how in ('max', 'min') and column(operand) == 0:
+                return (MX if how == 'max' else MN) + shift[0]
+            if dotted(e.func) in ('float', 'np.float64', 'np.float32') and len(e.args) == 1:
+                return ev(e.args[0])
+        if isinstance(e, ast.Call) and dotted(e.func) == 'np.ptp' and len(e.args) == 1 and column(e.args[0]) == 0:
+            return MX - MN
+        return None
+
+    def walk(stmts):
+        flat = []
+        for st in stmts:
+            # `a, b = x, y` with plain names on the left and no name of the left read on the right is `a = x; b = y`
+            if isinstance(st, ast.Assign) and len(st.targets) == 1 and isinstance(st.targets[0], ast.Tuple) and isinstance(st.value, ast.Tuple) and \
+                    len(st.targets[0].elts) == len(st.value.elts) and all(isinstance(t_, ast.Name) for t_ in st.targets[0].elts) and \
+                    not ({t_.id for t_ in st.targets[0].elts} & {n.id for n in ast.walk(st.value) if isinstance(n, ast.Name)}):
+                flat.extend(ast.copy_location(ast.Assign(targets=[t_], value=v_), st) for t_, v_ in zip(st.targets[0].elts, st.value.elts))
+            else:
+                flat.append(st)
+        for st in flat:
+            if isinstance(st, ast.Assign) and len(st.targets) == 1 and isinstance(st.targets[0], ast.Name):
+                col = column(st.value)
+                if col is not None:
+                    views[st.targets[0].id] = col          # basic slicing: a view, stores through it reach the array
+                    continue
+                v = ev(st.value)
+                nm = st.targets[0].id
+                if nm in accs:
+                    state['acc'] = state['acc'] or nm
+                if v is None:
+                    if nm in accs or any(isinstance(n, ast.Name) and (n.id == arr or n.id in views) for n in ast.walk(st.value)):
+                        state['unknown'] = state['unknown'] or st
+                    env.pop(nm, None)
+                    if nm == state['acc']:
+                        env[nm] = None
+                else:
+                    env[nm] = v
+                continue
+            tgt = st.target if isinstance(st, ast.AugAssign) else (st.targets[0] if isinstance(st, ast.Assign) and len(st.targets) == 1 else None)
+            col = column(tgt) if tgt is not None else None
+            if col is not None:
+                if col == 0 and isinstance(st, ast.AugAssign) and isinstance(st.op, (ast.Add, ast.Sub)):
+                    v = ev(st.value)
+                    if v is None:
+                        state['unknown'] = state['unknown'] or st
+                    else:
+                        shift[0] = shift[0] + (v if isinstance(st.op, ast.Add) else -v)
+                elif col == 0 and isinstance(st, ast.Assign) and isinstance(st.value, ast.BinOp) and isinstance(st.value.op, (ast.Add, ast.Sub)) and column(st.value.left) == 0:
+                    v = ev(st.value.right)          # array[:, 0] = array[:, 0] + a
+                    if v is None:
+                        state['unknown'] = state['unknown'] or st
+                    else:
+                        shift[0] = shift[0] + (v if isinstance(st.value.op, ast.Add) else -v)
+                else:
+                    state['other'] = state['other'] or st
+                continue
+            if isinstance(st, (ast.Expr, ast.Assert, ast.Pass)):
+                if isinstance(st, ast.Expr) and any(isinstance(n, ast.Name) and (n.id == arr or n.id in views) for n in ast.walk(st.value)) and \
+                        not (isinstance(st.value, ast.Call) and dotted(st.value.func) in ('logger.debug', 'logger.info', 'print')):
+                    state['unknown'] = state['unknown'] or st
+                continue
+            state['unknown'] = state['unknown'] or st
+
+    walk(lp.body)
+    acc = state['acc']
+    if state['other'] is not None:
+        ctx.violated('C12.S3', g, state['other'], 'the geometry of a probe is changed by something else than a translation of its x column (`%s`)' % unparse(state['other'])[:80])
+    elif state['unknown'] is not None or acc is None:
+        ctx.undecided('C12.S3', g, 'the probe loop of write_channel_positions contains a statement that was not recognised', state['unknown'] or lp)
+        return
+    elif shift[0] == A:
+        ctx.holds('C12.S3', g, 'only the x column of a probe is changed, by adding the running x offset (a translation)', lp)
+    else:
+        ctx.violated('C12.S3', g, lp, 'the x column of a probe is shifted by %s, not by the running offset' % shift[0])
+    if state['unknown'] is None and acc is not None:
+        new = env.get(acc, A)
+        if new is None:
+            ctx.undecided('C12.S3', g, 'the update of the x offset was not recognised')
+        else:
+            d = new - A - MX
+            al, be, ga, de = d.d.get(('maxX',), 0), d.d.get(('minX',), 0), d.d.get(('a',), 0), d.d.get('1', 0)
+            ok = ga == 0 and al == -be and al >= 0 and de >= 0 and (al > 0 or de > 0) and set(d.d) <= {('maxX',), ('minX',), ('a',), '1'}
+            ctx.check(ok, 'C12.S3', g, accs[acc] if not ok else lp, 'next x offset = previous offset + max x + a non-negative multiple of the width of the probe (2*max - min of the already shifted probe): '
+                      'the next probe starts beyond the largest x of this one',
+                      'the x offset after a probe is %s (a = previous offset, X = x column as loaded): it does not exceed the largest shifted x of the probe, a + max X, by a '
+                      'positive margin - probes are not kept apart' % new)
+        init = const_value(accs[acc].value)
+        ctx.check(init == 0, 'C12.S3', g, accs[acc], 'the first probe is not translated', 'the first probe is translated by %s' % init)
+
+
 def s3_positions_misc(ctx):
     repo = ctx.repo
     cls = repo.cls(MG, 'Merger')
     g = repo.lookup_method(cls, 'write_channel_positions')
     me = T('self')
-    loops = g.nodes(ast.For)
-    if loops:
-        lp = loops[0]
-        arr = unparse(lp.target)
-        accs = [unparse(a.targets[0]) for a in g.body() if isinstance(a, ast.Assign) and isinstance(const_value(a.value), (int, float)) and isinstance(a.targets[0], ast.Name)]
-        augs = [a for a in lp.body if isinstance(a, ast.AugAssign)]
-        only_x = len(augs) == 1 and isinstance(augs[0].target, ast.Subscript) and unparse(augs[0].target).replace(' ', '') == '%s[:,0]' % arr and \
-            isinstance(augs[0].op, ast.Add) and unparse(augs[0].value) in accs
-        stores = [a for a in lp.body if isinstance(a, ast.Assign) and isinstance(a.targets[0], ast.Subscript)]
-        ctx.check(only_x and not stores, 'C12.S3', g, augs[0] if augs else lp, 'only the x column of a probe is changed, by adding the running x offset (a translation)',
-                  'the geometry of a probe is changed by something else than a translation of its x column')
-        if only_x:
-            acc = unparse(augs[0].value)
-            upd = [a for a in lp.body if isinstance(a, ast.Assign) and unparse(a.targets[0]) == acc]
-            after = bool(upd) and lp.body.index(upd[0]) > lp.body.index(augs[0])
-            okf = False
-            if upd:
-                t = unparse(upd[0].value).replace(' ', '')
-                col = '%s[:,0]' % arr
-                forms = ('2.0*%s.max()-%s.min()' % (col, col), '2*%s.max()-%s.min()' % (col, col), '2.0*np.max(%s)-np.min(%s)' % (col, col),
-                         '%s.max()+(%s.max()-%s.min())' % (col, col, col), '%s.max()+%s.max()-%s.min()' % (col, col, col))
-                okf = t in forms or (t.startswith('%s.max()+' % col) and isinstance(const_value(upd[0].value.right), (int, float)) and const_value(upd[0].value.right) > 0)
-            ctx.check(after and okf, 'C12.S3', g, upd[0] if upd else lp, 'next x offset = 2*max - min of the already shifted probe (>= its largest x plus its width)',
-                      'the x offset of the next probe is `%s` computed %s the shift: probes are not kept apart' % (unparse(upd[0].value) if upd else '?', 'after' if after else 'before'))
-            init = [a for a in g.body() if isinstance(a, ast.Assign) and unparse(a.targets[0]) == acc]
-            ctx.check(bool(init) and const_value(init[0].value) == 0, 'C12.S3', g, acc, 'the first probe is not translated', 'the first probe is translated by %s' % (unparse(init[0].value) if init else '?'))
-    else:
-        ctx.undecided('C12.S3', g, 'no probe loop in write_channel_positions')
+    _positions_loop(ctx, g)
     outs = MI(repo, unroll=1, inline_depth=0).run(g, env={g.params[0]: me})
     sv = [(_strip(e[1]), _strip(e[2])) for kind, val, st in outs for e in st.trace if e[0] == 'save']
     ok = bool(sv) and all(n == C('channel_positions.npy') and is_t(v) and v[2] == '_concat' and
